@@ -225,6 +225,17 @@ def check(case):
                 case.close(np.asarray(g_i, dtype=float), np.asarray(g_f, dtype=float), rtol=1e-12,
                            what='evaluateS1 gradient for whole numbers given as %s vs as floats' % label)
 
+    # the parameter vector in other array forms (read-only, non-contiguous view)
+    if s['oos'] is None:
+        with case.clause('array_forms'):
+            from vf.core import array_forms
+            for label, arg in array_forms(params):
+                case.close(L(arg), want, rtol=1e-9, what='log-likelihood for the parameters given as %s' % label)
+                sc_a, g_a = L.evaluateS1(arg)
+                case.close(sc_a, want, rtol=1e-9, what='evaluateS1 score for the parameters given as %s' % label)
+                case.close(np.sum(L.compute_pointwise_ll(arg)), want, rtol=1e-9,
+                           what='sum(pointwise) for the parameters given as %s' % label)
+
     # A parameter is fixed, re-fixed at another value (as in a profile scan) and released again: every evaluation
     # uses the value of the LAST call.
     if s['oos'] is None and len(params) >= 2:
